@@ -145,13 +145,13 @@ _TMOVE = ['svb_append_element__pcE', 'svb_request_capacity', 'svb_shrink_to_size
           'ai_default_uninitialized_copy__pE_pE_pE']
 _OBS = ['sv_size', 'sv_capacity', 'sv_max_size', 'sv_empty', 'sv_data__v', 'sv_begin__v', 'sv_end__v', 'sv_inlined', 'sv_inlinable', 'sv_at__ul', 'sv_op_index__ul']
 _PUB = ['sv_push_back__pcE', 'sv_push_back__pE', 'sv_emplace_back__pcE', 'sv_pop_back', 'sv_clear', 'sv_reserve', 'sv_shrink_to_fit', 'sv_resize__ul',
-        'sv_insert__svcit_ul_pcE', 'sv_erase__svcit', 'sv_erase__svcit_svcit', 'sv_assign__ul_pcE', 'sv_append__pcE_pcE']
+        'sv_insert__svcit_ul_pcE', 'sv_erase__svcit', 'sv_erase__svcit_svcit', 'sv_assign__ul_pcE', 'sv_append__pcE_pcE', 'sv_append__IL', 'sv_assign__pcE_pcE', 'sv_assign__IL', 'sv_op_assign__IL']
 _ALLOC = ['svb_copy_assign__pcsvb', 'svb_copy_assign_default__pcsvb', 'svb_move_assign_default__psvb', 'svb_swap_default', 'svb_ctor__psvb', 'sv_get_allocator']
 _LEAVES_Q = [l for l in _LEAVES if l != 'ai_default_uninitialized_copy__pcE_pcE_pE']
 _TMOVE_Q = ['svb_emplace_into_reallocation__pE_pcE', 'svb_shrink_to_size', 'svb_request_capacity', 'svb_shift_into_uninitialized']
 _GLOBAL = {'main': _LEAVES_Q + _CORE, 'tmove': _TMOVE_Q}
 QUICK = {
-    'C01': {'main': _CORE + _CORE2 + _PUB + ['sv_at__ul', 'sv_at__ul_c', 'sv_op_index__ul', 'sv_front__v', 'sv_back__v', 'svb_emplace_at__pE_pcE', 'sv_emplace__svcit_pcE', 'sv_insert__svcit_pcE']},
+    'C01': {'main': _CORE + _CORE2 + _PUB + ['sv_at__ul', 'sv_at__ul_c', 'sv_op_index__ul', 'sv_front__v', 'sv_back__v', 'svb_emplace_at__pE_pcE', 'sv_emplace__svcit_pcE', 'sv_insert__svcit_pcE', 'sv_ctor__pcE_pcE_pcA', 'sv_ctor__IL_pcA']},
     'C02': {'main': _CORE + _OBS + ['sv_shrink_to_fit'], 'tmove': _TMOVE_Q, 'n0': ['svb_append_element__pcE', 'sv_inlined'], 'pocma': ['svb_move_assign_default__psvb'], 'pocs': ['svb_swap_default']},
     'C03': _GLOBAL, 'C04': dict(_GLOBAL, main=_LEAVES_Q + _CORE + ['svb_move_assign_default__psvb'], pair_lt=['svb_move_assign_default__psvbM']), 'C06': dict(_GLOBAL, main=_LEAVES_Q + _CORE + ['svb_swap_default'], tmove=_TMOVE_Q + ['svb_insert_copies@tail_lt']),
     'C12': dict(tmove=['svb_append_element__pcE', 'svb_request_capacity'], kf_inline_gt_max=['svb_append_element__pcE'], main=['ai_uninitialized_fill__pE_pE_pcE', 'ai_external_range_length__pcE_pcE', 'svb_unchecked_calculate_new_capacity', 'svb_append_element__pcE', 'svb_append_copies', 'svb_request_capacity',
